@@ -80,6 +80,11 @@ def canon_cond(w, lab):
                     a, b = b, a
                 return ('%s%s(%s, %s)' % (last, ty, N(a), N(b)), 'T' if truth else 'F')
         return (N(w), 'T' if truth else 'F')
+    if lab in ('Some', 'None'):
+        nw = norm(w)
+        if isinstance(nw, tuple) and nw and nw[0] == 'field' and nw[2] in ('0', '1') and is_call(nw[1]) and nw[1][1].split('::')[-1].split('.')[-1] == 'next' \
+                and 'HashMap.iter(' in S(nw[1]):
+            return (S(nw[1]), lab)      # "is there a next key" is "is there a next entry"
     if is_call(w) and w[1].split('::')[-1] == 'entry' and len(w[2]) == 2 and lab in ('Occupied', 'Vacant'):
         # match map.entry(k) { Occupied / Vacant } is the test map.contains_key(k)
         return ('HashMap.contains_key(%s, %s)' % (N(w[2][0]), N(w[2][1])), 'T' if lab == 'Occupied' else 'F')
@@ -232,6 +237,23 @@ def norm(v):
         if acc is not None:
             return norm(acc)
     out = tuple(norm(x) if isinstance(x, tuple) else x for x in v)
+    if out[0] == 'call' and out[1].split('::')[-1].split('.')[-1] == 'next' and len(out[2]) == 1 and is_call(out[2][0]) and out[2][0][1].split('::')[-1] == 'into_iter' \
+            and out[2][0][2] and is_call(out[2][0][2][0]) and out[2][0][2][0][1].split('::')[-1].split('.')[-1] in ('keys', 'values') and 'Hash' in out[2][0][2][0][1]:
+        # `for k in map.keys()` is `for (k, _) in map.iter()`: the key (value) is component 0 (1) of the entry
+        which = '0' if out[2][0][2][0][1].split('::')[-1].split('.')[-1] == 'keys' else '1'
+        m = out[2][0][2][0][2][0]
+        it = ('call', 'q::HashMap.iter', (m,), '', None)
+        ent = ('call', out[1], (('call', out[2][0][1], (it,)) + tuple(out[2][0][3:]),)) + tuple(out[3:])
+        return ('field', ent, which)
+    if out[0] == 'call' and out[1].split('::')[-1] == 'index' and 'HashMap' in out[1] and len(out[2]) == 2 \
+            and isinstance(out[2][1], tuple) and out[2][1][0] == 'field' and out[2][1][2] == '0' and is_call(out[2][1][1]) and out[2][1][1][1].split('::')[-1].split('.')[-1] == 'next':
+        inner = out[2][1][1]
+        try:
+            same_map = inner[2][0][2][0][2][0] == out[2][0]
+        except Exception:
+            same_map = False
+        if same_map:
+            return ('field', inner, '1')      # map[k] for the key k of the entry being visited: the value of that entry
     if v[0] == 'call' and isinstance(v[1], str) and v[1].endswith('::write_fmt') and len(v[2]) == 2:
         # what is written: literal text and displayed values in order (write!(f, "lit") = f.write_str("lit");
         # write!(f, "{x}") with a constant or nested format_args! x = writing the text of x)
